@@ -201,6 +201,7 @@ def d3(cx: Cx, ob: Ob) -> None:
     flags_only_report(cx, ob)
     delegated_echo(cx, ob)
     strict_only_failure(cx, ob)
+    echo_builder_total(cx, ob)
 
 
 def strict_only_failure(cx: Cx, ob: Ob) -> None:
@@ -250,6 +251,29 @@ def strict_only_failure(cx: Cx, ob: Ob) -> None:
                         detail="strict-raises-on-success",
                     )
                     break
+
+
+def echo_builder_total(cx: Cx, ob: Ob) -> None:
+    """format_curie is what the passthrough tails of expand_pair / expand_reference hand back (the re-joined input)
+    and what the success paths of compress / standardize_curie return: it has no failure mode of its own.  A path
+    on which it answers None puts None into tails that promise a string (passthrough) or a value (strict)."""
+    fn = cx.model.functions.get(f"{CONV}.format_curie")
+    if fn is None:
+        return
+    s = cx.summary(fn, ob.id)
+    ob.site(f"{fn.where} {fn.qualname}", "format_curie always returns a string")
+    for t, ctx in s.returns():
+        if is_const(t, None):
+            line = ctx.path.out[2] if ctx.path.out else fn.node.lineno
+            gs = [("" if g.b else "not ") + show(g.a)[:50] for g in ctx.guards if g.kind == "guard"]
+            ob.violate(
+                fn.qualname,
+                where(fn, line),
+                f"format_curie returns None when `{' and '.join(gs) or 'always'}`: expand_pair / expand_reference(passthrough=True) return that None instead of the input, and standardize_curie / compress_or_standardize return None under strict=True instead of raising",
+                witness="expand_pair('obo:GO', '1', passthrough=True) is None for an unknown prefix containing the delimiter",
+                detail="echo-builder-none",
+            )
+            break
 
 
 def delegated_echo(cx: Cx, ob: Ob) -> None:
